@@ -168,6 +168,13 @@ let run_c03 oc (hints : string list) =
          Printf.fprintf oc "dec %s %s %s\n" comp rname s;
          seen := (comp ^ " " ^ rname, s) :: !seen))
       [("amended", bs_amended); ("literal", bs_literal)];
+    (* the SSTR entries of the uncompressed file, for the MD5 check done by the Python handler (hashlib) *)
+    (if comp = "none" then
+       match bspec_decode_gen bs_amended zstd bytes with
+       | Ok f -> (match f.bf_sstr with
+           | Some l -> List.iter (fun (h, c) -> Printf.fprintf oc "sstr-entry %s %s\n" (hex_of_bytes h) (hex_of_bytes c)) l
+           | None -> ())
+       | _ -> ());
     (* structural clauses over the decoded chunk list *)
     (match p_header bytes with
      | Ok (hdr, rest) ->
